@@ -1127,7 +1127,7 @@ func (p *pipeGen) admitCase() {
 	// a second audience asks for itself and is answered for itself
 	b := vlib.Pick(r, others[2:])
 	if b.IsValid() {
-		if sb > b.Addr().BitLen() && !r.Chance(1, 10) {
+		if sb > b.Addr().BitLen() && (viaFwd || !r.Chance(1, 10)) { // (an over-long SCOPE cannot travel over a socket)
 			sbTok = fmt.Sprint(b.Addr().BitLen())
 		}
 		p.op("pipe ask %s %s %s %d %s", route(), q(g), fmtScope(b), p.nextID(), sbTok)
@@ -1435,8 +1435,46 @@ func genExhaustive(emit func(string)) int {
 	return n
 }
 
+// genL3 emits the system-level cases: concurrent lookups through the real resolver whose forwarded
+// subnets differ in exactly one respect (prefix length with the same network address, address, family,
+// presence), so that anything the resolver shares between in-flight lookups shows at the clients.
+func genL3(r *vlib.R, emit func(string), k int) int {
+	emit("l3 new")
+	for i := 0; i < k; i++ {
+		a := withBits(genPrefix(r, r.Chance(1, 4)), 0)
+		full := a.Addr().BitLen()
+		la := vlib.Pick(r, []int{24, 24, 32, 16, 20})
+		if full == 128 {
+			la = vlib.Pick(r, []int{56, 48, 64, 128})
+		}
+		a = withBits(a, la).Masked()
+		var b netip.Prefix
+		switch (i + int(r.U64()%2)) % 5 {
+		case 0, 1: // same network address, shorter source prefix (zero-extended)
+			b = withBits(a, la-vlib.Pick(r, []int{8, 4, 1, la / 2})).Masked()
+			a = netip.PrefixFrom(b.Addr(), la) // the longer prefix is the shorter one zero-extended
+		case 2: // same length, another network
+			b = withBits(flipBit(a, r.Intn(la)), la)
+		case 3: // no subnet at all
+			b = netip.Prefix{}
+		default: // the same subnet: sharing one exchange is fine
+			b = a
+		}
+		// a later client inside B's (or A's) network but outside the other
+		d := a
+		if b.IsValid() && b.Bits() < la {
+			d = withBits(flipBit(a, b.Bits()+r.Intn(la-b.Bits())), la)
+		} else if r.Bool() {
+			d = withBits(a, full)
+		}
+		emit(fmt.Sprintf("l3 sf %s %s %s", fmtScope(a), fmtScope(b), fmtScope(d)))
+	}
+	return k + 1
+}
+
 func gen(r *vlib.R, n int, tier string, emit func(string)) {
 	n -= genExhaustive(emit)
+	n -= genL3(r, emit, map[bool]int{true: 24, false: 6}[tier == "thorough"])
 	sweep := int(r.U64() % 256)
 	p := &pipeGen{r: r, emit: emit}
 	for n > 0 {
